@@ -636,13 +636,33 @@ func replaceFunc(arg1, arg2, arg3 query) func(query, iterator) interface{} {
 			panic(fmt.Errorf("replace() function second argument is not a valid regexp pattern, err: %s", err.Error()))
 		}
 
-		// replace all $i to ${i} for golang regexp.Expand
-		for idx := e.NumSubexp(); idx > 0; idx-- {
-			dst = strings.ReplaceAll(dst, fmt.Sprintf("$%d", idx), fmt.Sprintf("${%d}", idx))
-		}
-
-		return e.ReplaceAllString(str, dst)
+		return e.ReplaceAllString(str, expandGroupRefs(dst, e.NumSubexp()))
 	}
+}
+
+// expandGroupRefs rewrites every $N of an XPath replacement string as ${N} for
+// golang regexp.Expand, which would otherwise read the letters, digits and
+// underscores that follow as part of the name. N is the longest run of digits
+// that is a group number of the pattern ($0 is the whole match); digits after
+// it are literal. A single digit beyond the last group refers to a group that
+// does not exist and yields the empty string.
+func expandGroupRefs(dst string, groups int) string {
+	var sb strings.Builder
+	for i := 0; i < len(dst); i++ {
+		if dst[i] != '$' || i+1 >= len(dst) || dst[i+1] < '0' || dst[i+1] > '9' {
+			sb.WriteByte(dst[i])
+			continue
+		}
+		n := int(dst[i+1] - '0')
+		j := i + 2
+		for j < len(dst) && dst[j] >= '0' && dst[j] <= '9' && n*10+int(dst[j]-'0') <= groups {
+			n = n*10 + int(dst[j]-'0')
+			j++
+		}
+		sb.WriteString("${" + strconv.Itoa(n) + "}")
+		i = j - 1
+	}
+	return sb.String()
 }
 
 // notFunc is XPATH functions not(expression) function operation.
